@@ -21,6 +21,10 @@ func c15Inline(tag string) spec.Parameter {
 		p.In = "query"
 	}
 	p.Description = tag
+	if vrfParam("xgoname", 0) != 0 && vrfBool(tag+".x-go-name") {
+		// a vendor extension that must not influence which parameters override which
+		p.Extensions = spec.Extensions{"x-go-name": c15Names[vrfInt(tag+".x-go-name.v", 0, 1)]}
+	}
 	return p
 }
 
